@@ -14,7 +14,8 @@ import subprocess
 import sys
 
 PROPS = ['C%02d' % i for i in range(1, 21)]
-TIES = ['OsloPolicy.Properties.TieParser', 'OsloPolicy.Properties.TieOpts', 'OsloPolicy.Properties.TieKinds']
+TIES = ['OsloPolicy.Properties.TieParser', 'OsloPolicy.Properties.TieOpts', 'OsloPolicy.Properties.TieKinds',
+        'OsloPolicy.Properties.TieApi']
 
 
 def sh(cmd, **kw):
@@ -41,10 +42,13 @@ def main():
     pats = sorted(glob.glob('/tmp/ref/R*/_ref/*/patch.diff'))
     if len(sys.argv) > 1:      # only the named refactorers, e.g. R02 R06
         pats = [p for p in pats if p.split('/')[3] in sys.argv[1:]]
+    archived = not pats
+    if archived:               # re-evaluation of the archived refactorings
+        pats = sorted(glob.glob('/verif/seeded/refactorings/R*/patch.diff'))
     os.makedirs('/tmp/rx', exist_ok=True)
     jobs, info = [], {}
     for pth in pats:
-        rid = pth.split('/')[3] + '-' + pth.split('/')[5]
+        rid = pth.split('/')[4] if pth.startswith('/verif/seeded/refactorings/') else pth.split('/')[3] + '-' + pth.split('/')[5]
         wt = '/tmp/rx/' + rid
         if not os.path.isdir(wt):
             sh(['git', '-C', '/repo', 'worktree', 'add', '-q', '--detach', wt, 'HEAD'])
